@@ -17,7 +17,7 @@ from vmon.res import Result, exc_name, capture_stdout
 
 ID = "C18"
 LEVEL = "exploration"
-CASES = {"quick": 3000, "thorough": 60000}
+CASES = {"quick": 3000, "thorough": 240000}
 RULE = ("seeded random FeatureCollections: 0-8 features, heterogeneous property key sets, per-key value type in {bool,int,float,str}+null, "
         "geometries Point/LineString/Polygon/MultiPolygon/GeometryCollection/null, extra top-level members with arbitrary nested JSON values "
         "and arbitrary names (spaces, quotes, backslashes, non-ASCII), indent in {default,0,1,4,None}, plain and compressed paths; non-trivial "
